@@ -68,9 +68,13 @@ def build_harness(pkg="vh"):
         return
     with Lock("cargo"):
         t = time.time()
+        cdir = os.path.join(VERIF, "harness", pkg)
+        if not os.path.exists(os.path.join(cdir, "Cargo.lock")):
+            import shutil
+            shutil.copy(os.path.join(VERIF, "harness", "Cargo.lock"), os.path.join(cdir, "Cargo.lock"))
         p = subprocess.run(
-            ["timeout", "1200", "cargo", "build", "--offline", "-p", pkg, "--bins"],
-            cwd=os.path.join(VERIF, "harness"), env=env_offline(),
+            ["timeout", "1200", "cargo", "build", "--offline", "--bins"],
+            cwd=cdir, env=env_offline(),
             stdout=subprocess.PIPE, stderr=subprocess.STDOUT, text=True)
         if p.returncode != 0:
             raise BuildFailed(p.stdout[-6000:])
